@@ -19,6 +19,18 @@ for p in $PROPS; do
     cat "$tmp/$p.$W."* | sort -n > "$tmp/$p.$W.all"; rm -f "$tmp/$p.$W."[0-9]*
   done
   n=$(wc -l < "$tmp/$p.16.all")
+  case " C14 C18 " in *" $p "*)
+    # FIPS-build pass of the same property: same proof with the FIPS binary
+    binf="$ROOT/build/harness-fips/isalsim_fips"; needf="$(cat "$ROOT/build/harness-fips/.libdir")/isa_need.tsv"
+    for W in 16 3; do
+      for ((w=0; w<W; w++)); do ISALSIM_NEED="$needf" VERIF_WORKERS=$W VERIF_WID=$w "$binf" determinism "$p" "$N" > "$tmp/$p.f.$W.$w" & done
+      wait
+      cat "$tmp/$p.f.$W."* | sort -n > "$tmp/$p.f.$W.all"; rm -f "$tmp/$p.f.$W."[0-9]*
+    done
+    nf=$(wc -l < "$tmp/$p.f.16.all")
+    if cmp -s "$tmp/$p.f.16.all" "$tmp/$p.f.3.all" && [ "$nf" = "$N" ]; then echo "$p (FIPS-build pass): $nf runs identical across 16-process and 3-process executions (VERIF_SEED=${VERIF_SEED:-1})"
+    else echo "$p (FIPS-build pass): NONDETERMINISM ($nf lines)"; diff "$tmp/$p.f.16.all" "$tmp/$p.f.3.all" | head -5; rc=1; fi ;;
+  esac
   if cmp -s "$tmp/$p.16.all" "$tmp/$p.3.all" && [ "$n" = "$N" ]; then echo "$p: $n runs identical across 16-process and 3-process executions (VERIF_SEED=${VERIF_SEED:-1})"
   else echo "$p: NONDETERMINISM ($n lines)"; diff "$tmp/$p.16.all" "$tmp/$p.3.all" | head -5; rc=1; fi
 done
